@@ -3,7 +3,11 @@
 package files
 
 import (
+	"errors"
+	"time"
+
 	v "github.com/goreleaser/nfpm/v2/internal/zzverif"
+	"github.com/goreleaser/nfpm/v2/internal/zzverif/models"
 )
 
 // verifIsCleanAbs is the independent oracle for "absolute and lexically clean":
@@ -248,4 +252,40 @@ func Verif_C13_PackagerTag() {
 	if tag != pk {
 		v.Assert(!got, "entry-addressed-to-another-packager-is-never-relevant")
 	}
+}
+
+// Verif_C05_K7_FlattenCollision: a destination ending in '/' places every
+// match at dst/<base name>; two matches of ONE entry with the same base name
+// (in different sub-directories of the source) would occupy one destination:
+// preparation must fail with the content-collision error, whatever the order
+// in which the matches are visited.
+func Verif_C05_K7_FlattenCollision() {
+	mt := time.Unix(1600000000, 0).UTC()
+	models.AddDir("/s", 0o755, mt)
+	d := models.AddDir("/s/conf", 0o755, mt)
+	models.AddDir("/s/conf/a", 0o755, mt)
+	models.AddDir("/s/conf/b", 0o755, mt)
+	same := v.NondetBool("same.base.name")
+	models.AddFile("/s/conf/a/x.conf", []byte("A"), 0o644, mt)
+	if same {
+		models.AddFile("/s/conf/b/x.conf", []byte("B"), 0o644, mt)
+	} else {
+		models.AddFile("/s/conf/b/y.conf", []byte("B"), 0o644, mt)
+	}
+	v.PermuteMaps(true)
+	res, err := PrepareForPackager(Contents{{Source: d, Destination: "/etc/app/"}}, 0o022, "deb", false, mt)
+	v.PermuteMaps(false)
+	v.Reach("K7.ran")
+	if same {
+		v.Assert(errors.Is(err, ErrContentCollision), "collision-two-matches-of-one-entry-on-one-destination")
+		return
+	}
+	v.Assert(err == nil, "no-false-collision")
+	n := 0
+	for _, c := range res {
+		if c.Type == TypeFile {
+			n++
+		}
+	}
+	v.Assert(n == 2, "both-matches-placed-into-the-directory")
 }
